@@ -153,6 +153,10 @@ func (its *WiredDatatype) checkOptionAndError(ppp *model.PushPullPack) errors.Or
 
 func (its *WiredDatatype) excludeDuplicatedOperations(ppp *model.PushPullPack) {
 	pulled := its.calculatePullingOperations(ppp.CheckPoint)
+	if pulled < 0 {
+		// a stale response (its checkpoint is behind the current one): everything it carries was already received
+		pulled = 0
+	}
 	if len(ppp.Operations) > pulled {
 		// for example, if len(ppp.Operations) == 5: o_1 o_2 o_3 o_4 o_5 are received, and
 		// if `pulled` == 3, o_1 and o_2 were already received,
